@@ -5,6 +5,7 @@ package bkl
 import (
 	"fmt"
 	"path/filepath"
+	"regexp"
 	"strings"
 	"unicode"
 
@@ -13,7 +14,21 @@ import (
 
 func init() { vRegister("HarnessSelf_models", HarnessSelf_models) }
 
-var selfStrings = []string{"", "$", "$$", "a$$b", "$$$", "$$$$", `$"x{a}y"`, "$merge:a.b", "a.b.c", "x:y:z", "é$é", "$é", "$Éa", "k=v=w", "/a/b.c/d.e", "a/b/", "{a}{b}", "{a", "a}", "{}{", "$env:X", "s p"}
+var selfREs = []*regexp.Regexp{
+	regexp.MustCompile(`(?s)\$"(.*)"$`),
+	regexp.MustCompile(`^\$"(.*)"$`),
+	regexp.MustCompile(`\{(.*?)\}`),
+	regexp.MustCompile(`\$(\w+)|\$\{(\w+)\}`),
+	regexp.MustCompile(`a*`),
+	regexp.MustCompile(`(?i)\bE(?P<n>[a-z]*)\b`),
+	regexp.MustCompile(`[^.:/]+`),
+	regexp.MustCompile(`(?m)^\s*(\S)?`),
+	regexp.MustCompile(`(a|ab)(c|bcd)?`),
+	regexp.MustCompile(`\$\$`),
+	regexp.MustCompile(`.é|é.`),
+}
+
+var selfStrings = []string{"", "$", "$$", "a$$b", "$$$", "$$$$", `$"x{a}y"`, "$merge:a.b", "a.b.c", "x:y:z", "é$é", "$é", "$Éa", "k=v=w", "/a/b.c/d.e", "a/b/", "{a}{b}", "abcd e_E x", "$FOO ${bar}", "$\"a\nb\"", "aab$\"x\"", "{a", "a}", "{}{", "$env:X", "s p"}
 
 // HarnessSelf_models: differential self-test of the engine's string models.
 // s is a SYMBOLIC string pinned to a concrete value by an assumption, so the
@@ -50,5 +65,19 @@ func HarnessSelf_models() {
 	}
 	out := interpRE.ReplaceAllStringFunc(s, func(m string) string { return "<" + m + ">" })
 	chk("Regexp", out == interpRE.ReplaceAllStringFunc(c, func(m string) string { return "<" + m + ">" }))
+	for i, re := range selfREs {
+		id := fmt.Sprintf("re%d.", i)
+		chk(id+"Match", re.MatchString(s) == re.MatchString(c))
+		chk(id+"Find", re.FindString(s) == re.FindString(c))
+		chk(id+"Sub", strings.Join(re.FindStringSubmatch(s), "|") == strings.Join(re.FindStringSubmatch(c), "|"))
+		chk(id+"SubNil", (re.FindStringSubmatch(s) == nil) == (re.FindStringSubmatch(c) == nil))
+		chk(id+"Idx", fmt.Sprintf("%v", re.FindStringSubmatchIndex(s)) == fmt.Sprintf("%v", re.FindStringSubmatchIndex(c)))
+		chk(id+"All", strings.Join(re.FindAllString(s, -1), "|") == strings.Join(re.FindAllString(c, -1), "|"))
+		chk(id+"AllIdx", fmt.Sprintf("%v", re.FindAllStringIndex(s, -1)) == fmt.Sprintf("%v", re.FindAllStringIndex(c, -1)))
+		chk(id+"Repl", re.ReplaceAllString(s, "<$1|${0}>") == re.ReplaceAllString(c, "<$1|${0}>"))
+		chk(id+"ReplLit", re.ReplaceAllLiteralString(s, "#") == re.ReplaceAllLiteralString(c, "#"))
+		chk(id+"ReplFunc", re.ReplaceAllStringFunc(s, strings.ToUpper) == re.ReplaceAllStringFunc(c, strings.ToUpper))
+		chk(id+"Split", strings.Join(re.Split(s, -1), "|") == strings.Join(re.Split(c, -1), "|"))
+	}
 	vCover("self.checked")
 }
